@@ -1,7 +1,9 @@
 /* C13 — RepeatBand back-off: formula without wrap-around, bounds, monotonicity.
  * Real code: band_update_stats, band_choose_hello_time (lltdAutomata.c). */
 #include "vport.c"
+#include "v_checks_on.h"
 #include "lltdAutomata.c"
+#include "v_checks_off.h"
 
 static void on_send(void *c, const uint8_t *f, size_t n) { (void)c; (void)f; (void)n; }
 static void on_sleep(uint32_t ms) { (void)ms; }
